@@ -608,3 +608,7 @@ def fw_next_fw(regions, region, ij, forward, left, nx, n):
 def fw_next_lf(regions, region, ij, forward, left, nx, n):
     t = fw_turn(regions, region, ij, forward, left, nx, n)
     return left if t == 0 else (-forward if t == -1 else forward)
+
+
+# the step functions are only compared with each other in the trace argument: symbols with a definitional axiom
+OPAQUE |= {"fw_next_ij", "fw_next_fw", "fw_next_lf"}
